@@ -143,7 +143,8 @@ class Firewall(Router, discriminator="firewall"):
 
         self.external_outbound_acl.sys_log = kwargs["sys_log"]
         self.external_outbound_acl.name = f"{kwargs['config'].hostname} - External Outbound"
-        self.power_on()
+        if self.operating_state == NodeOperatingState.ON:
+            self.power_on()
 
     def _init_request_manager(self) -> RequestManager:
         """
